@@ -28,7 +28,12 @@ def run(tier: str, seed: int) -> int:
     neg = tlc.run_tlc("MC_Determinism", "MC_Determinism_negative.cfg", workers=2, check_ok=False)
     if neg.invariant_violated is None:
         raise tlc.MachineryError("negative control: unsorted set rendering not refuted")
-    chk.coverage["negative_control"] = {"cfg": "MC_Determinism_negative.cfg", "refuted_invariant": neg.invariant_violated}
+    neg2 = tlc.run_tlc("MC_Determinism", "MC_Determinism_negative_names.cfg", workers=2, check_ok=False)
+    if neg.invariant_violated != "Deterministic" or neg2.invariant_violated != "NoInternalName":
+        raise tlc.MachineryError("negative control: a message built from an internal random name not refuted")
+    chk.coverage["negative_control"] = {"cfgs": ["MC_Determinism_negative.cfg (set rendered in iteration order)",
+                                                 "MC_Determinism_negative_names.cfg (message names an object by its random name)"],
+                                        "refuted_invariants": [neg.invariant_violated, neg2.invariant_violated]}
     corpus = []
     mult = 1 if tier == "quick" else 4
     for kind, gen, shards, env, keep in SOURCES:
